@@ -280,6 +280,12 @@ def run_der_strict(case, rec):
     shift = 1 if (v["tagging"] == "explicit" and v["kind"] not in ("octets", "setof", "null")) else 0
     maxd = shift + (1 if v["kind"] in ("seq", "setof") else 0)
     muts = [(l, m) for l, m in muts if der.mutation_depth(l) <= maxd]
+    if shift:
+        # bytes trailing the inner structure *inside* the EXPLICIT wrapper (the wrapper's own length is consistent): [n] { TLV || extra }
+        inner = ref_encode(dict(v, tagging=None))
+        for extra in (b"\x00", b"\x05\x00", b"\x02\x01\x00", b"\xff"):
+            muts.append(("inner-trailing@1", der.enc_explicit(v["tagn"], inner + extra)))
+            muts.append(("inner-trailing@1", der.enc_explicit(v["tagn"], inner + extra)))
     label, data = muts[case["pick"] % len(muts)]
     thunks = [("class", decode_with_class(v, data, case["strict_flag"])),
               ("DerObject", lambda: asn1.DerObject().decode(data, strict=case["strict_flag"]))]
